@@ -87,8 +87,8 @@ func VerifH_C07_api_corrupt_datatype_message() {
 	vrt.Covered("corrupted-file-dumped")
 }
 
-func VerifH_C07_api_corrupt_heap_header() { verifCorruptField(0) }
-func VerifH_C07_api_corrupt_index_header() { verifCorruptField(1) }
+func VerifH_C07_api_corrupt_heap_header()      { verifCorruptField(0) }
+func VerifH_C07_api_corrupt_index_header()     { verifCorruptField(1) }
 func VerifH_C07_api_corrupt_object_header_00() { verifCorruptFieldAt(2, 0, 4) }
 func VerifH_C07_api_corrupt_object_header_04() { verifCorruptFieldAt(2, 4, 8) }
 func VerifH_C07_api_corrupt_object_header_08() { verifCorruptFieldAt(2, 8, 12) }
@@ -134,6 +134,10 @@ func VerifH_C07_api_shared_group_ladder() {
 // parallel. Files: dense attributes (v2 superblock), chunked + groups (v0 superblock, symbol tables), vlen strings.
 func verifSweepFile(kind int) string {
 	switch kind {
+	case 3, 4, 5:
+		// reference-library files (version 1 headers with their own layout, link messages, symbol tables)
+		rel := []string{"testdata/with_groups.h5", "testdata/v0.h5", "testdata/with_attributes.h5"}[kind-3]
+		vrt.AssertNoErr(os.WriteFile("c07s.h5", vrt.Corpus(rel), 0o644), "write-ok")
 	case 0:
 		verifDenseFile("c07s.h5")
 	case 1:
@@ -200,28 +204,28 @@ func verifSweepRange(kind, lo, hi int) {
 	vrt.Covered("corrupted-file-dumped")
 }
 
-func VerifH_C07_api_sweep_dense_00_thorough() { verifSweep(0, 0) }
-func VerifH_C07_api_sweep_dense_01_thorough() { verifSweep(0, 1) }
-func VerifH_C07_api_sweep_dense_02_thorough() { verifSweep(0, 2) }
-func VerifH_C07_api_sweep_dense_03_thorough() { verifSweep(0, 3) }
-func VerifH_C07_api_sweep_dense_04_thorough() { verifSweep(0, 4) }
-func VerifH_C07_api_sweep_dense_05_thorough() { verifSweep(0, 5) }
-func VerifH_C07_api_sweep_dense_06_thorough() { verifSweep(0, 6) }
-func VerifH_C07_api_sweep_dense_07_thorough() { verifSweep(0, 7) }
-func VerifH_C07_api_sweep_dense_08_thorough() { verifSweep(0, 8) }
-func VerifH_C07_api_sweep_dense_09_thorough() { verifSweep(0, 9) }
-func VerifH_C07_api_sweep_dense_10_thorough() { verifSweep(0, 10) }
-func VerifH_C07_api_sweep_dense_11_thorough() { verifSweep(0, 11) }
-func VerifH_C07_api_sweep_dense_12_thorough() { verifSweep(0, 12) }
-func VerifH_C07_api_sweep_dense_13_thorough() { verifSweep(0, 13) }
-func VerifH_C07_api_sweep_dense_14_thorough() { verifSweep(0, 14) }
-func VerifH_C07_api_sweep_dense_15_thorough() { verifSweep(0, 15) }
-func VerifH_C07_api_sweep_dense_16_thorough() { verifSweep(0, 16) }
-func VerifH_C07_api_sweep_dense_17_thorough() { verifSweep(0, 17) }
-func VerifH_C07_api_sweep_dense_18_thorough() { verifSweep(0, 18) }
-func VerifH_C07_api_sweep_dense_19_thorough() { verifSweep(0, 19) }
-func VerifH_C07_api_sweep_dense_20_thorough() { verifSweep(0, 20) }
-func VerifH_C07_api_sweep_dense_21_thorough() { verifSweep(0, 21) }
+func VerifH_C07_api_sweep_dense_00_thorough()     { verifSweep(0, 0) }
+func VerifH_C07_api_sweep_dense_01_thorough()     { verifSweep(0, 1) }
+func VerifH_C07_api_sweep_dense_02_thorough()     { verifSweep(0, 2) }
+func VerifH_C07_api_sweep_dense_03_thorough()     { verifSweep(0, 3) }
+func VerifH_C07_api_sweep_dense_04_thorough()     { verifSweep(0, 4) }
+func VerifH_C07_api_sweep_dense_05_thorough()     { verifSweep(0, 5) }
+func VerifH_C07_api_sweep_dense_06_thorough()     { verifSweep(0, 6) }
+func VerifH_C07_api_sweep_dense_07_thorough()     { verifSweep(0, 7) }
+func VerifH_C07_api_sweep_dense_08_thorough()     { verifSweep(0, 8) }
+func VerifH_C07_api_sweep_dense_09_thorough()     { verifSweep(0, 9) }
+func VerifH_C07_api_sweep_dense_10_thorough()     { verifSweep(0, 10) }
+func VerifH_C07_api_sweep_dense_11_thorough()     { verifSweep(0, 11) }
+func VerifH_C07_api_sweep_dense_12_thorough()     { verifSweep(0, 12) }
+func VerifH_C07_api_sweep_dense_13_thorough()     { verifSweep(0, 13) }
+func VerifH_C07_api_sweep_dense_14_thorough()     { verifSweep(0, 14) }
+func VerifH_C07_api_sweep_dense_15_thorough()     { verifSweep(0, 15) }
+func VerifH_C07_api_sweep_dense_16_thorough()     { verifSweep(0, 16) }
+func VerifH_C07_api_sweep_dense_17_thorough()     { verifSweep(0, 17) }
+func VerifH_C07_api_sweep_dense_18_thorough()     { verifSweep(0, 18) }
+func VerifH_C07_api_sweep_dense_19_thorough()     { verifSweep(0, 19) }
+func VerifH_C07_api_sweep_dense_20_thorough()     { verifSweep(0, 20) }
+func VerifH_C07_api_sweep_dense_21_thorough()     { verifSweep(0, 21) }
 func VerifH_C07_api_sweep_v0chunked_00_thorough() { verifSweep(1, 0) }
 func VerifH_C07_api_sweep_v0chunked_01_thorough() { verifSweep(1, 1) }
 func VerifH_C07_api_sweep_v0chunked_02_thorough() { verifSweep(1, 2) }
@@ -236,16 +240,16 @@ func VerifH_C07_api_sweep_v0chunked_10_thorough() { verifSweep(1, 10) }
 func VerifH_C07_api_sweep_v0chunked_11_thorough() { verifSweep(1, 11) }
 func VerifH_C07_api_sweep_v0chunked_12_thorough() { verifSweep(1, 12) }
 func VerifH_C07_api_sweep_v0chunked_13_thorough() { verifSweep(1, 13) }
-func VerifH_C07_api_sweep_vlen_00_thorough() { verifSweep(2, 0) }
-func VerifH_C07_api_sweep_vlen_01_thorough() { verifSweep(2, 1) }
-func VerifH_C07_api_sweep_vlen_02_thorough() { verifSweep(2, 2) }
-func VerifH_C07_api_sweep_vlen_03_thorough() { verifSweep(2, 3) }
-func VerifH_C07_api_sweep_vlen_04_thorough() { verifSweep(2, 4) }
-func VerifH_C07_api_sweep_vlen_05_thorough() { verifSweep(2, 5) }
-func VerifH_C07_api_sweep_vlen_06_thorough() { verifSweep(2, 6) }
-func VerifH_C07_api_sweep_vlen_07_thorough() { verifSweep(2, 7) }
-func VerifH_C07_api_sweep_vlen_08_thorough() { verifSweep(2, 8) }
-func VerifH_C07_api_sweep_vlen_09_thorough() { verifSweep(2, 9) }
+func VerifH_C07_api_sweep_vlen_00_thorough()      { verifSweep(2, 0) }
+func VerifH_C07_api_sweep_vlen_01_thorough()      { verifSweep(2, 1) }
+func VerifH_C07_api_sweep_vlen_02_thorough()      { verifSweep(2, 2) }
+func VerifH_C07_api_sweep_vlen_03_thorough()      { verifSweep(2, 3) }
+func VerifH_C07_api_sweep_vlen_04_thorough()      { verifSweep(2, 4) }
+func VerifH_C07_api_sweep_vlen_05_thorough()      { verifSweep(2, 5) }
+func VerifH_C07_api_sweep_vlen_06_thorough()      { verifSweep(2, 6) }
+func VerifH_C07_api_sweep_vlen_07_thorough()      { verifSweep(2, 7) }
+func VerifH_C07_api_sweep_vlen_08_thorough()      { verifSweep(2, 8) }
+func VerifH_C07_api_sweep_vlen_09_thorough()      { verifSweep(2, 9) }
 
 // hard links stored as link messages (the compact form of "new style" groups) in a library-written file: one or two
 // link messages are added to the object header of /, /g or /g/h, each leading to one of {/, /g, /g/h, /g/d}. Links
@@ -363,3 +367,47 @@ func VerifH_C07_api_link_message_ladder() {
 	}
 	vrt.Covered("link-ladder-opened")
 }
+
+// the same sweep over reference-library files: with_groups.h5 (11 slices), v0.h5 (6), with_attributes.h5 (25)
+func VerifH_C07_api_sweep_refgroups_00_thorough() { verifSweep(3, 0) }
+func VerifH_C07_api_sweep_refgroups_01_thorough() { verifSweep(3, 1) }
+func VerifH_C07_api_sweep_refgroups_02_thorough() { verifSweep(3, 2) }
+func VerifH_C07_api_sweep_refgroups_03_thorough() { verifSweep(3, 3) }
+func VerifH_C07_api_sweep_refgroups_04_thorough() { verifSweep(3, 4) }
+func VerifH_C07_api_sweep_refgroups_05_thorough() { verifSweep(3, 5) }
+func VerifH_C07_api_sweep_refgroups_06_thorough() { verifSweep(3, 6) }
+func VerifH_C07_api_sweep_refgroups_07_thorough() { verifSweep(3, 7) }
+func VerifH_C07_api_sweep_refgroups_08_thorough() { verifSweep(3, 8) }
+func VerifH_C07_api_sweep_refgroups_09_thorough() { verifSweep(3, 9) }
+func VerifH_C07_api_sweep_refgroups_10_thorough() { verifSweep(3, 10) }
+func VerifH_C07_api_sweep_refv0_00_thorough()     { verifSweep(4, 0) }
+func VerifH_C07_api_sweep_refv0_01_thorough()     { verifSweep(4, 1) }
+func VerifH_C07_api_sweep_refv0_02_thorough()     { verifSweep(4, 2) }
+func VerifH_C07_api_sweep_refv0_03_thorough()     { verifSweep(4, 3) }
+func VerifH_C07_api_sweep_refv0_04_thorough()     { verifSweep(4, 4) }
+func VerifH_C07_api_sweep_refv0_05_thorough()     { verifSweep(4, 5) }
+func VerifH_C07_api_sweep_refattrs_00_thorough()  { verifSweep(5, 0) }
+func VerifH_C07_api_sweep_refattrs_01_thorough()  { verifSweep(5, 1) }
+func VerifH_C07_api_sweep_refattrs_02_thorough()  { verifSweep(5, 2) }
+func VerifH_C07_api_sweep_refattrs_03_thorough()  { verifSweep(5, 3) }
+func VerifH_C07_api_sweep_refattrs_04_thorough()  { verifSweep(5, 4) }
+func VerifH_C07_api_sweep_refattrs_05_thorough()  { verifSweep(5, 5) }
+func VerifH_C07_api_sweep_refattrs_06_thorough()  { verifSweep(5, 6) }
+func VerifH_C07_api_sweep_refattrs_07_thorough()  { verifSweep(5, 7) }
+func VerifH_C07_api_sweep_refattrs_08_thorough()  { verifSweep(5, 8) }
+func VerifH_C07_api_sweep_refattrs_09_thorough()  { verifSweep(5, 9) }
+func VerifH_C07_api_sweep_refattrs_10_thorough()  { verifSweep(5, 10) }
+func VerifH_C07_api_sweep_refattrs_11_thorough()  { verifSweep(5, 11) }
+func VerifH_C07_api_sweep_refattrs_12_thorough()  { verifSweep(5, 12) }
+func VerifH_C07_api_sweep_refattrs_13_thorough()  { verifSweep(5, 13) }
+func VerifH_C07_api_sweep_refattrs_14_thorough()  { verifSweep(5, 14) }
+func VerifH_C07_api_sweep_refattrs_15_thorough()  { verifSweep(5, 15) }
+func VerifH_C07_api_sweep_refattrs_16_thorough()  { verifSweep(5, 16) }
+func VerifH_C07_api_sweep_refattrs_17_thorough()  { verifSweep(5, 17) }
+func VerifH_C07_api_sweep_refattrs_18_thorough()  { verifSweep(5, 18) }
+func VerifH_C07_api_sweep_refattrs_19_thorough()  { verifSweep(5, 19) }
+func VerifH_C07_api_sweep_refattrs_20_thorough()  { verifSweep(5, 20) }
+func VerifH_C07_api_sweep_refattrs_21_thorough()  { verifSweep(5, 21) }
+func VerifH_C07_api_sweep_refattrs_22_thorough()  { verifSweep(5, 22) }
+func VerifH_C07_api_sweep_refattrs_23_thorough()  { verifSweep(5, 23) }
+func VerifH_C07_api_sweep_refattrs_24_thorough()  { verifSweep(5, 24) }
